@@ -16,6 +16,7 @@ EXPLANATION = (
     "normalised to a case tree of exact rational functions and compared with the W3C formula; dispatch impls are "
     "evaluated with the blend functions left uninterpreted so that the function reaching each method is visible. "
     "Not decided: rounding, and results staying in [0,1] where no final clamp provides it."
+    " CONV: C::from(PreAlpha<C>) (9 types) and the PreAlpha constructors / From impls are premultiply / unpremultiply themselves."
 )
 
 MODES = ["multiply", "screen", "overlay", "darken", "lighten", "dodge", "burn", "hard_light", "soft_light", "difference", "exclusion"]
